@@ -36,6 +36,12 @@ T = {
  "C03": (True, "E2", "exhaustive enumeration of sample values x offset/gain alphabets (complete for 8/16-bit formats) and of frame widths 1..32 x 14 formats x every Frame method on the real code, against the reference arithmetic and per-channel sample application",
          "Identity laws over every value of the <=24-bit formats (thorough: <=32-bit), general add/mul laws over every 8/16-bit value x all offsets/gains of the alphabets (lattice above), bare-sample-as-frame laws; 448 frame instantiations x 9 contents x every Frame method with closure call order observed; release and overflow-checked builds.",
          "Values above 16/24 bits are covered on lattices; offsets/gains come from finite alphabets. Trusted: rustc/LLVM, hardware f32/f64 multiply, the reference conversions (C01/C02 references).", "DESIGN.md §4 C03"),
+ "C04": (True, "E2", "bounded-exhaustive enumeration of adaptor programs (all trees to depth 2, all unary stacks to depth 3/4, 4 frame families) executed on the real adaptor structs against an AST interpreter with instrumented sources",
+         "Every program of the bounded space is built from the real dasp_signal adaptors and run for source length + delays + 3 calls; frames are compared with the pointwise interpreter, every instrumented source must have been pulled exactly once per call (never under a delay's leading silence), inspect must see exactly what passes, and programs over a borrowed source must leave it at the right frame after every prefix length.",
+         "Depth and source length are bounded (depth 2 trees, stacks of 3/4, sources of <=3 frames); right operands of add_amp/mul_amp are unary stacks. Trusted: rustc/LLVM, the Frame operations (checked by C03) used pointwise by the interpreter, the forwarding wrapper.", "DESIGN.md §4 C04"),
+ "C05": (True, "E2", "the same bounded-exhaustive program enumeration, with an exhaustion algebra in the interpreter (exhausted-after-T-calls per node) and exact-count oracles for until_exhausted, lift, take and interleaved output",
+         "For every program: is_exhausted() before and after every next(), three further calls after exhaustion, until_exhausted()/lift() yielding exactly T frames and then None for good, interleaved output yielding exactly T x channels samples, take(n) for every n up to T+2; interleaved sources of every sample count 0..3N+1 (trailing partial frame dropped).",
+         "Same bounds as C04. Trusted: rustc/LLVM, the interpreter's exhaustion algebra as stated in the property.", "DESIGN.md §4 C05"),
 }
 ALL = ["C%02d" % i for i in range(1, 21)]
 
